@@ -441,6 +441,40 @@ NON_ASCII = ['C\u0661CC\u0661', 'C\uff11CC\uff11', 'C\u00b2', 'C\u00bdC', 'C\u24
              'C |^1:\u0660|', 'C.C>> |f:\u0660.1|', 'C\u2082H', 'C>\uff1e>C']
 
 
+def hydrogen_centres():
+    """molecule texts whose FIRST atom is the centre of interest"""
+    out = []
+    envs = ['', 'C', '(C)C', '(C)(C)C', '(C)(C)(C)C', '=C', '(=C)C', '#C', '(=O)=O', '(=O)(=O)C', '(C)(C)(C)(C)C']
+    for e in ['B', 'C', 'N', 'O', 'F', 'P', 'S', 'Cl', 'Br', 'I']:
+        for env in envs:
+            out.append(e + env)
+            for h in ['', 'H', 'H2', 'H3', 'H4']:
+                out.append(f'[{e}{h}]' + env)
+    for c in ['[NH4+]', '[NH3+]C', '[N+](C)(C)(C)C', '[O-]C', '[OH-]', '[OH3+]', '[O+](C)(C)C', '[CH3-]', '[CH3+]', '[CH2-]C', '[BH4-]',
+              '[B-](C)(C)(C)C', '[S-]C', '[SH-]', '[Cl-]', '[F-]', '[PH4+]', '[N-](C)C', '[NH-]C', '[N+](=O)([O-])C', '[Na+]', '[NaH]',
+              '[Na]', '[Fe]', '[FeH2]', '[SiH4]', '[SiH3]C', '[Si](C)(C)(C)C', '[SeH]C', '[H]', '[H+]', '[H-]', '[2H]C', '[HH]',
+              '[13CH4]', '[13CH3]', '[OH]', '[O]C', '[NH]C', '[N](C)C', '[CH2]C', '[CH](C)C', '[C](C)(C)C', '[SH]', '[S]C', '[PH2]',
+              '[P](C)C', '[BH2]', '[B](C)C', '[C](Cl)(Cl)Cl',
+              'c1ccccc1', '[cH]1ccccc1', '[c]1ccccc1', '[cH2]1ccccc1', 'c1(C)ccccc1', '[c]1(C)ccccc1', '[cH]1(C)ccccc1',
+              'n1ccccc1', '[n]1ccccc1', '[nH]1cccc1', '[n]1cccc1', 'n1cccc1', '[nH+]1ccccc1', '[n+]1(C)ccccc1', 'o1cccc1', '[o]1cccc1',
+              's1cccc1', '[se]1cccc1', '[s+]1ccccc1', 'b1ccccc1', '[b]1ccccc1', 'p1ccccc1', '[pH]1cccc1', 'c12ccccc1cccc2',
+              '[c]12ccccc1cccc2', '[cH]12ccccc1cccc2', '[c-]1cccc1', '[cH-]1cccc1', '[c+]1cccccc1']:
+        out.append(c)
+    return out
+
+
+def hydrogen_grid():
+    for m in hydrogen_centres():
+        yield m
+        yield m + ' |^1:0|'
+        yield 'O.' + m
+        for t in ('{m}>>', '>{m}>', '>>{m}', '{m}>>C', 'C>{m}>C', 'C>>{m}', 'O.{m}>>', 'N>>O.{m}', '{m}>{m}>{m}'):
+            yield t.format(m=m)
+        yield m + '>>C |^1:0|'
+        yield 'C>>' + m + ' |^1:1|'
+        yield 'C>' + m + '>C |^1:1|'
+
+
 def streams(ctx):
     """yield (tag, string)"""
     rng = ctx.rng
@@ -458,6 +492,10 @@ def streams(ctx):
                       'C{o}1CCOC{c}1=C/F', 'F/C=C/C=C{o}1COCC{c}1', 'F/C=C{o}1.Cl{c}1', 'Cl{o}1.F/C=C{c}1', 'Cl{o}1.F/C(Br)=C{c}1I',
                       'F/C(I)=C{o}1Br.Cl{c}1'):
                 yield 'ring-bond-grid', t.format(o=o, c=c)
+    # hydrogens / radical state: every centre (unbracketed, bracket with each H count, charged, aromatic) in every bonding
+    # environment, read as a molecule, as each role of a reaction, next to other molecules, with and without a CXSMILES mark
+    for s in hydrogen_grid():
+        yield 'hydrogen-grid', s
     # reactions with distinct one-atom molecules and every kind of fragment grouping (within / across roles, out of range)
     mols9 = ['C', 'N', 'O', 'S', 'P', 'F', 'Cl', 'Br', 'I']
     for nr in range(4):
@@ -659,6 +697,20 @@ def correspond(ctx):
         ctx.count(('S', s), True)
         if r is not None:
             ctx.fail(r[0], r[1], {'smiles': s})
+    # the reader agrees with itself for every forwarded keyword argument: a molecule text in any role of a reaction is built as
+    # the same text read alone (hydrogens, radicals, isotopes, charges, stereo, canonical string)
+    mols = OPTION_MOLS + (hydrogen_centres() if not ctx.quick else ctx.rng.sample(hydrogen_centres(), 60))
+    for opts in OPTION_GRID:
+        for m in mols:
+            for t in ROLE_TEMPLATES:
+                t = t.format(m=m)
+                ctx.dist('stream:option-role-grid(oracle only)')
+                state['n_or'] += 1
+                ctx.count(('O', t, tuple(sorted(opts.items()))), True)
+                r = role_relation(m, t, opts)
+                if r is not None:
+                    ctx.dist('oracle:' + r[0])
+                    ctx.fail(r[0], r[1], {'smiles': t, 'molecule': m, 'options': opts})
     for tag, s in streams(ctx):
         if not s or any(ord(c) > 126 for c in s):
             continue
@@ -836,6 +888,93 @@ def stereo_judgement(s, obj):
             f'smiles({s!r}) was built as {w}: RDKit reads the input as {a} but the built molecule as {b}')
 
 
+# lowest normal valence of the organic subset (OpenSMILES) and of their common closed-shell ions (isoelectronic neighbour)
+_LOWVAL = {(5, 0): 3, (6, 0): 4, (7, 0): 3, (8, 0): 2, (9, 0): 1, (15, 0): 3, (16, 0): 2, (17, 0): 1, (35, 0): 1, (53, 0): 1,
+           (5, -1): 4, (6, 1): 3, (6, -1): 3, (7, 1): 4, (7, -1): 2, (8, 1): 3, (8, -1): 1, (9, -1): 0, (15, 1): 4, (15, -1): 2,
+           (16, 1): 3, (16, -1): 1, (17, -1): 0, (35, -1): 0, (53, -1): 0}
+
+
+def expected_hydrogens(a, orders, named):
+    """what the language says about ONE atom: None (not judged) | (hydrogens, radical or None=not judged, tag).
+    `a` reference atom, `orders` orders of its bonds in the reference graph, `named` = listed in the CXSMILES ^n: block.
+    Judged: bracket atoms -- the written count; a count that leaves exactly one open valence below the lowest normal
+    valence is a radical (SMILES has no other way to write one). Unbracketed organic-subset atoms with bond order sum up to
+    the lowest normal valence -- the difference (the range in which every reader agrees). Aromatic atoms: written count of
+    bracket hetero atoms; carbon with two aromatic bonds and at most one more valence, or three aromatic bonds.
+    Not judged: valences above the lowest normal one (hypervalent P, S, halogens, N(V): the valence model's domain, C04),
+    elements outside the organic subset, unbracketed aromatic hetero atoms (left to kekule() by design)."""
+    arom = sum(1 for o in orders if o == 4)
+    sigma = sum(o for o in orders if o != 4)
+    h = a.hcount if a.bracket else None
+    if a.z == 1:
+        return (0, None, 'H') if (h or 0) == 0 and not named else None
+    if arom:
+        if a.bracket:
+            if a.z != 6 or a.charge:
+                return (h, None, 'aromatic-bracket')
+            if (arom == 2 and sigma + h <= 1) or (arom == 3 and sigma == 0 and h == 0):
+                return (h, None, 'aromatic-bracket')
+            return None
+        if a.z == 6 and not named:
+            if arom == 2 and sigma <= 1:
+                return (1 - sigma, False, 'aromatic-c')
+            if arom == 3 and sigma == 0:
+                return (0, False, 'aromatic-c')
+        return None
+    v0 = _LOWVAL.get((a.z, a.charge))
+    if v0 is None:
+        return None
+    if not a.bracket:
+        t = sigma + (1 if named else 0)
+        return (v0 - t, named, 'organic') if t <= v0 else None
+    t = sigma + h
+    if t > v0:
+        return None
+    d = v0 - t
+    if named:
+        return (h, True, 'bracket-radical') if d == 1 and not a.charge else None
+    if d == 0:
+        return (h, False, 'bracket')
+    if a.charge:
+        return None
+    if d == 1:
+        return (h, True, 'halogen-atom' if a.z in (9, 17, 35, 53) else 'bracket-radical')
+    return (h, None, 'open-valence-2')
+
+
+def hydrogen_judgement(s, obj, roles, want):
+    k = 0
+    for mols, g in roles:
+        if not g:
+            continue
+        real = [(a.implicit_hydrogens, bool(a.is_radical)) for m in mols for a in m._atoms.values()]
+        if len(real) != len(g.atoms):
+            return None
+        nb = [[] for _ in g.atoms]
+        for (i, j), o in g.bonds.items():
+            nb[i].append(o)
+            nb[j].append(o)
+        for i, a in enumerate(g.atoms):
+            e = expected_hydrogens(a, nb[i], (k + i) in want)
+            if e is None:
+                continue
+            eh, er, tag = e
+            if er is True and a.z in (9, 17, 35, 53):
+                tag = 'halogen-atom'      # halogen radical, however written: [Cl], Cl |^1:0|, [Cl] |^1:0|
+            rh, rr = real[i]
+            if rh != eh or (er is not None and rr != er):
+                if tag == 'open-valence-2':
+                    sig = 'C03/wrong-graph/hydrogens-open-valence-2'
+                elif tag == 'halogen-atom':
+                    sig = 'C03/wrong-graph/hydrogens-halogen-atom'
+                else:
+                    sig = 'C03/wrong-graph/hydrogens'
+                return sig, (f'smiles({s!r}) = {obj}: atom {k + i} of the text ({tag}) has hydrogens={rh} radical={rr}; '
+                             f'the text means hydrogens={eh}' + ('' if er is None else f' radical={er}'))
+        k += len(g.atoms)
+    return None
+
+
 def oracle(s, stereo=True):
     """property-level judgement of ONE string on the real code (never consults the Lean model).
     returns None if the property holds, else (signature, what)"""
@@ -917,6 +1056,12 @@ def oracle(s, stereo=True):
                 if k not in want and f and not a.bracket:
                     return 'C03/wrong-graph/radical', f'smiles({s!r}) = {obj}: atom {k} of the text is not named in the radical block but was made a radical'
                 k += 1
+    # hydrogens and radical state the reader leaves on every atom (molecule or any role of a reaction), judged against the
+    # written count / the OpenSMILES normal valences -- see hydrogen_judgement
+    if not contracted:
+        r = hydrogen_judgement(s, obj, roles, getattr(ref_read, 'radicals', set()))
+        if r is not None:
+            return r
     # RDKit as a second, fully independent reader (molecules without CXSMILES only)
     if not is_rxn and len(words) == 1 and '~' not in s:
         rv = rdkit_view(s)
@@ -929,8 +1074,66 @@ def oracle(s, stereo=True):
     return None
 
 
+# every keyword of smiles() that is forwarded to create_molecule / create_reaction, at a non-default value (and the defaults)
+OPTION_GRID = [{}, {'keep_implicit': True}, {'ignore_carbon_radicals': True}, {'ignore_aromatic_radicals': False},
+               {'ignore_bad_isotopes': True}, {'ignore': False}, {'ignore_stereo': True}, {'remap': True},
+               {'keep_implicit': True, 'ignore_carbon_radicals': True, 'ignore_aromatic_radicals': False, 'ignore_bad_isotopes': True}]
+OPTION_MOLS = ['[CH3]', 'C[CH2]', 'C[O]', '[CH2]', '[OH3]', 'C[NH]', '[CH3]C', 'c1cc[c]cc1', '[n]1cccc1', 'c1cc[n]c1', '[3CH4]', '[3C]C',
+               '[13CH3]', 'N[C@H](C)O', 'F/C=C/F', 'C[N+](C)(C)C', '[NH4+]', 'CC(=O)[O-]', '[CH3:7]C', 'C1CC1', 'CS(C)C', '[Cl]', 'C=[CH3]',
+               '[cH2]1ccccc1', 'c1ccccc1[CH2]', 'Cl[C](Cl)Cl', 'CC(C)(C)O[O]']
+ROLE_TEMPLATES = ['{m}>>', '>{m}>', '>>{m}', '{m}>>C', 'C>{m}>C', 'C>>{m}']
+
+
+def mol_full_view(m):
+    """everything the reader decided about one built molecule, atoms in construction order (numbers left out)"""
+    pos = {n: k for k, n in enumerate(m._atoms)}
+    atoms = [(a.atomic_number, a.isotope, a.charge, a.implicit_hydrogens, bool(a.is_radical)) for a in m._atoms.values()]
+    bonds = sorted((min(pos[n], pos[k]), max(pos[n], pos[k]), int(b)) for n, ms in m._bonds.items() for k, b in ms.items() if pos[n] < pos[k])
+    stereo = (sorted((pos[n], v) for n, v in m._atoms_stereo.items()) if hasattr(m, '_atoms_stereo') else None,
+              sorted((tuple(sorted((pos[a], pos[b]))), v) for (a, b), v in getattr(m, '_cis_trans_stereo', {}).items()))
+    return atoms, bonds, stereo, str(m)
+
+
+def role_relation(m, t, opts):
+    """the reader agrees with itself: the text `m` placed in one role of a reaction (`t`) is built exactly as `m` read alone,
+    for the same keyword arguments. Returns None or (signature, what)."""
+    _, S, _ = _mods()
+    try:
+        a = S.smiles(m, **opts)
+        av = mol_full_view(a)
+    except ValueError as e:
+        av = None
+    except Exception as e:
+        return f'C03/unrelated-exception/{type(e).__name__}', f'smiles({m!r}, **{opts}) raised {type(e).__name__}: {e}'
+    try:
+        r = S.smiles(t, **opts)
+    except ValueError as e:
+        if av is None:
+            return None
+        return ('C03/wrong-graph/reaction-role-differs-from-molecule',
+                f'smiles({t!r}, **{opts}) raised {type(e).__name__}: {e}, but smiles({m!r}, **{opts}) = {a}')
+    except Exception as e:
+        return f'C03/unrelated-exception/{type(e).__name__}', f'smiles({t!r}, **{opts}) raised {type(e).__name__}: {e}'
+    if av is None:
+        if opts.get('ignore', True):
+            return None      # known: ignore=True drops the molecule the builder rejects
+        return ('C03/wrong-graph/reaction-role-differs-from-molecule',
+                f'smiles({t!r}, **{opts}) = {r} although smiles({m!r}, **{opts}) is rejected')
+    a_, b_, c_ = t.split('>')
+    role = r.reactants if a_.startswith(m) and a_ == m else (r.reagents if b_ == m else r.products)
+    views = [mol_full_view(x) for x in role]
+    if av not in views:
+        return ('C03/wrong-graph/reaction-role-differs-from-molecule',
+                f'smiles({t!r}, **{opts}) builds {[v[3] for v in views]} {[v[0] for v in views]} for the role written {m!r}; '
+                f'smiles({m!r}, **{opts}) = {av[3]} {av[0]}')
+    return None
+
+
 def probe(inp):
     """re-execute one input (or a short list of inputs of the same finding) on the real code"""
+    if 'options' in inp:     # relational input: molecule text, reaction text, keyword arguments
+        r = role_relation(inp['molecule'], inp['smiles'], inp['options'])
+        return (True, r[1]) if r is not None else (False, f"smiles({inp['smiles']!r}, **{inp['options']}): role agrees with the molecule read alone")
     ss = inp['smiles']
     ss = [ss] if isinstance(ss, str) else list(ss)
     want = inp.get('signature')
